@@ -133,6 +133,36 @@ Proof.
   - lia.
 Qed.
 
+(* linkback reachability from n is not enlarged by n's new parents listing n as a child *)
+Lemma Lb_mixed : forall g n x ms a k, g_get g n = Some x -> Lb (mixed g n x ms) a k -> Lb g a k \/ Lb g n k.
+Proof.
+  intros g n x ms a k E H. destruct (mixed_rel g n x ms E) as [L Old]. cbn zeta in Old.
+  induction H as [a|a y c k Ea Ic H IH].
+  - left. constructor.
+  - assert (a < length g) as La by (rewrite <- L; eapply g_get_lt; eauto).
+    destruct (g_get_some _ _ La) as [z Ez]. destruct (Old _ _ Ez) as [y' [Ey' R]]. rewrite Ea in Ey'. injection Ey' as <-.
+    destruct R as (_ & _ & _ & _ & _ & _ & Hc). apply Hc in Ic.
+    destruct IH as [IH|IH]; [|right; exact IH].
+    destruct Ic as [Ic|[-> _]]; [left; eapply lb_step; eauto | right; exact IH].
+Qed.
+
+Lemma iso_mixed_upd : forall g n x ms g', Inv g -> g_get g n = Some x ->
+  upd (length g) (mixed g n x ms) n = Some g' -> Iso g g' n.
+Proof.
+  intros g n x ms g' I E U. destruct (mixed_rel g n x ms E) as [L Old]. cbn zeta in Old.
+  pose proof (iso_mixed g n x ms E) as S1.
+  destruct (upd_spec _ _ _ _ U) as [(K & C & S) _].
+  split.
+  - intros m Ne. rewrite <- (gkeep_same_dm _ _ K m). apply (iso_dm _ _ _ S1 m Ne).
+  - intros m z Em Ne NL. destruct (Old _ _ Em) as [y1 [Ey1 R]]. destruct R as (_ & _ & _ & R4 & R5 & _).
+    destruct (proj2 K _ _ Ey1) as [y [Ey _]]. exists y. split; auto. split.
+    + pose proof (C m) as Cm. rewrite (compiled_b_get _ _ _ Ey), (compiled_b_get _ _ _ Ey1) in Cm. congruence.
+    + destruct (S _ _ _ Ey1 Ey) as [Q|(_ & V & _)]; [congruence|].
+      exfalso. apply NL. unfold visited in V. apply lb_b_sound in V.
+      destruct (Lb_mixed _ _ _ _ _ _ E V); auto.
+  - destruct K as [K _]. rewrite <- K, L. auto.
+Qed.
+
 (* --- register / unregister --- *)
 Lemma iso_modify : forall g n x t g', Inv g -> g_get g n = Some x ->
   upd (length g) (g_mod g n (set_own t)) n = Some g' -> Iso g g' n.
@@ -205,8 +235,9 @@ Proof.
       * destruct (do_modify (created g (n :: mixins) lb) (length g) (t_register sig l)) as [g2 o2].
         cbn in *. destruct o2; cbn; try apply Iso_refl. congruence.
     + rewrite do_create_invalid by auto. apply Iso_refl.
-  - destruct (do_add_mixins_cases g n ms) as [(x & E & V & Lk & W & ->)|(_ & _ & ->)]; [|apply Iso_refl].
-    cbn. apply iso_mixed. auto.
+  - destruct (do_add_mixins_cases g n ms) as [(x & E & Lk & F & ->)|[(x & g' & E & V & Lk & F & W & U & ->)|(_ & -> & _)]];
+      try apply Iso_refl.
+    cbn. eapply iso_mixed_upd; eauto.
   - rewrite do_register_unfold.
     destruct (do_modify_cases g n (t_register sig l)) as [(x & t & g' & E & Lk & F & U & ->)|[_ ->]]; [|apply Iso_refl].
     cbn. eapply iso_modify; eauto.
@@ -259,8 +290,9 @@ Proof.
     { unfold do_create in C. destruct (valid_ids g (n :: mixins)); injection C as <- <-; congruence. }
     destruct o1; cbn in *; try (apply X; congruence).
     destruct (do_register g1 (length g) sig l) as [g2 o2]. destruct o2; cbn in *; congruence.
-  - destruct (do_add_mixins_cases g n ms) as [(x & E & V & Lk & W & Q)|(_ & _ & Q)]; auto.
-    rewrite Q in H. cbn in H. congruence.
+  - destruct (do_add_mixins_cases g n ms) as [(x & E & Lk & F & Q)|[(x & g' & E & V & Lk & F & W & U & Q)|(_ & Q & _)]]; auto.
+    + rewrite Q. reflexivity.
+    + rewrite Q in H. cbn in H. congruence.
   - rewrite do_register_unfold in *.
     destruct (do_modify_cases g n (t_register sig l)) as [(x & t & g' & E & Lk & F & U & Q)|[_ Q]]; auto.
     rewrite Q in H. cbn in H. congruence.
